@@ -100,4 +100,36 @@ def programs():
         body['thenc']['next'] = sw
         body['elsec']['next'] = sw
         out.append(wrap(f"opt-switch/{u1}{u2}", body))
+    # the scrutinee is used again inside its own clause (second switch on it); the switch is the FIRST statement of a
+    # definition, so parameters that are dead in all clauses are still in the environment (they die at the switch): all
+    # subsets of {a, b, c} live in the clause, scrutinee last in the environment or not, and an object-typed sibling of
+    # the scrutinee's type that is absent, dead or live
+    PAIR = lambda v: {"var": v, "chi": "prd", "ty": "Pair"}
+    for live in itertools.chain.from_iterable(itertools.combinations(names, r) for r in range(4)):
+        for last in (True, False):
+            for sibling in ('none', 'dead', 'live'):
+                x, y = V("x", 70), V("y", 71)
+                ga, gb, gc, gx, gy = V("a", 80), V("b", 81), V("c", 82), V("x", 83), V("y", 84)
+                gpool = {'a': ga, 'b': gb, 'c': gc}
+                p, q, p2, q2, p3, q3 = V("p", 73), V("q", 74), V("p", 75), V("q", 76), V("p", 77), V("q", 78)
+                tail = exit_with(p)
+                if sibling == 'live':
+                    tail = {"k": "switch", "var": gy, "ty": "Pair", "clauses": [{"xtor": "Tup", "context": [ext(p3), ext(q3)], "body": uses([q3], exit_with(p))}]}
+                inner = {"k": "switch", "var": gx, "ty": "Pair",
+                         "clauses": [{"xtor": "Tup", "context": [ext(p2), ext(q2)], "body": uses([q2, p2] + [gpool[v] for v in live], tail)}]}
+                sw = {"k": "switch", "var": gx, "ty": "Pair",
+                      "clauses": [{"xtor": "Tup", "context": [ext(p), ext(q)], "body": uses([q], inner)}]}
+                gctx = [ext(ga), ext(gb)] + ([PAIR(gy)] if sibling != 'none' else [])
+                args = [ext(A), ext(B)] + ([PAIR(y)] if sibling != 'none' else [])
+                if last:
+                    gctx += [ext(gc), PAIR(gx)]
+                    args += [ext(C), PAIR(x)]
+                else:
+                    gctx += [PAIR(gx), ext(gc)]
+                    args += [PAIR(x), ext(C)]
+                g = {"name": "g", "context": gctx, "body": sw}
+                call = {"k": "call", "label": "g", "args": args}
+                mk_x = {"k": "let", "var": x, "ty": "Pair", "tag": "Tup", "args": [ext(A), ext(B)], "next": call}
+                body = mk_x if sibling == 'none' else {"k": "let", "var": y, "ty": "Pair", "tag": "Tup", "args": [ext(B), ext(C)], "next": mk_x}
+                out.append(wrap(f"switch-reuse/{''.join(live) or '-'}/{'last' if last else 'notlast'}/{sibling}", body, [g]))
     return out
